@@ -748,6 +748,12 @@ func RunC16(tier string) int {
 		_ = os.RemoveAll(dir)
 	}
 
+	// (2b) what a package's globs resolve to does not depend on which other packages are loaded
+	// next to it: a parent package globbing into the directory of a nested package, the nested
+	// package using the pattern without the prefix, siblings with equal patterns
+	if report.Part("nestedglobs") {
+		c16NestedGlobs(run, st)
+	}
 	// (3) corruptions
 	nCor := tierN(tier, 1600, 60000)
 	e1.Parallel(nCor, func(i int) {
@@ -831,4 +837,74 @@ func diffField(a, b string) string {
 		return "missing-node"
 	}
 	return strings.Join(ks, "+")
+}
+
+func c16NestedGlobs(run *report.Run, st *e1.Setup) {
+	dir := filepath.Join(st.Base, "nestedglobs")
+	defer os.RemoveAll(dir)
+	type layout struct {
+		name  string
+		files map[string]string
+		want  map[string][]string // label -> resolved inputs
+	}
+	src := map[string]string{"lib/gen/a.txt": "a", "lib/gen/b.txt": "b", "lib/gen/deep/c.txt": "c", "lib/x.md": "x", "lib2/gen/a.txt": "a2", "lib2/y.md": "y"}
+	nested := "targets:\n  - name: g\n    command: \"true\"\n    inputs: [\"*.txt\"]\n"
+	nestedJSON := `{"targets":[{"name":"g","command":"true","inputs":["*.txt"]}]}`
+	parent := `{"targets":[{"name":"t","command":"true","inputs":["gen/*.txt","*.md"]},{"name":"deep","command":"true","inputs":["gen/**/*.txt"]}]}`
+	sibling := `{"targets":[{"name":"t","command":"true","inputs":["gen/*.txt","*.md"]}]}`
+	layouts := []layout{
+		{"nested-alone", map[string]string{"lib/gen/BUILD.yaml": nested}, map[string][]string{"//lib/gen:g": {"a.txt", "b.txt"}}},
+		{"nested-next-to-its-parent", map[string]string{"lib/gen/BUILD.json": nestedJSON, "lib/BUILD.json": parent, "lib2/BUILD.json": sibling},
+			map[string][]string{"//lib/gen:g": {"a.txt", "b.txt"}, "//lib:t": {"gen/a.txt", "gen/b.txt", "x.md"}, "//lib:deep": {"gen/a.txt", "gen/b.txt", "gen/deep/c.txt"}, "//lib2:t": {"gen/a.txt", "y.md"}}},
+	}
+	for li, lo := range layouts {
+		ws := filepath.Join(dir, fmt.Sprintf("ws%d", li))
+		for f, c := range src {
+			_ = os.MkdirAll(filepath.Dir(filepath.Join(ws, f)), 0755)
+			_ = os.WriteFile(filepath.Join(ws, f), []byte(c), 0644)
+		}
+		for f, c := range lo.files {
+			_ = os.MkdirAll(filepath.Dir(filepath.Join(ws, f)), 0755)
+			_ = os.WriteFile(filepath.Join(ws, f), []byte(c), 0644)
+		}
+		for _, w := range []int{1, 1, 2, 2, 8, 8, 8, 3} {
+			_ = os.WriteFile(filepath.Join(ws, "grog.toml"), []byte(fmt.Sprintf("num_workers = %d\n", w)), 0644)
+			m := &grog.Machine{Bin: st.Grog, Workspace: ws, Root: filepath.Join(dir, "root"), Home: filepath.Join(dir, "home"), Trace: filepath.Join(dir, "trace"), VctlBin: st.Vctl}
+			_ = os.MkdirAll(m.Home, 0755)
+			res := m.Run([]string{"graph", "-o", "json", "//..."}, grog.RunOpts{Build: "g", Timeout: 60 * time.Second})
+			run.Eval(1)
+			run.Count("nested_glob_loads", 1)
+			if res.Exit != 0 || res.Crashed() != "" {
+				run.Inconclusive("nested-glob workspace not loaded: " + tailS(res.Stdout+res.Stderr, 300))
+				return
+			}
+			var g struct {
+				Nodes []struct {
+					Label struct {
+						Package string `json:"package"`
+						Name    string `json:"name"`
+					} `json:"label"`
+					Inputs []string `json:"inputs"`
+				} `json:"nodes"`
+			}
+			if err := json.Unmarshal([]byte(res.Stdout), &g); err != nil {
+				run.Inconclusive("graph -o json not parsed: " + err.Error())
+				return
+			}
+			got := map[string][]string{}
+			for _, n := range g.Nodes {
+				in := append([]string{}, n.Inputs...)
+				sort.Strings(in)
+				got["//"+n.Label.Package+":"+n.Label.Name] = in
+			}
+			for l, want := range lo.want {
+				if strings.Join(got[l], " ") != strings.Join(want, " ") {
+					run.Violation("resolved-inputs-depend-on-the-other-packages-loaded", fmt.Sprintf("layout %s, num_workers=%d: %s resolves its inputs to %v; its patterns match %v", lo.name, w, l, got[l], want),
+						map[string]any{"layout": lo.name, "build_files": lo.files, "num_workers": w, "got": got, "want": lo.want})
+					return
+				}
+			}
+			run.Nontrivial(fmt.Sprintf("nestedglobs|%s|w%d", lo.name, w))
+		}
+	}
 }
